@@ -9,7 +9,7 @@ CHECKS="$@"
 E=${EVALDIR:-/tmp/eval}
 mkdir -p $E/out
 HEAD=$(git -C /repo rev-parse HEAD)
-if [ ! -d $E/repo ]; then git -C /repo worktree add -q --detach $E/repo $HEAD; else git -C $E/repo checkout -q -- . ; git -C $E/repo checkout -q --detach $HEAD; fi
+if [ ! -d $E/repo ]; then git -C /repo worktree add -q --detach $E/repo $HEAD; else git -C $E/repo checkout -q -- . ; git -C $E/repo clean -fdq src; git -C $E/repo checkout -q --detach $HEAD; fi
 rsync -a --delete --exclude target --exclude .git --exclude replays --exclude evidence /verif/ $E/verif/
 sed -i "s#path = \"/repo\"#path = \"$E/repo\"#" $E/verif/engine/Cargo.toml
 [ -z "$CHECKS" ] && CHECKS=$(python3 -c "import json;print(' '.join(c['property_id'] for c in json.load(open('/verif/MANIFEST.json'))['checks']))")
@@ -19,6 +19,6 @@ for c in $CHECKS; do
   (cd $E/verif && VERIF_ROOT=$E/verif ./check.sh $c quick > $E/out/$ID.$c.log 2>&1); rc=$?
   RES="$RES $c=$rc"
 done
-git -C $E/repo checkout -q -- .
+git -C $E/repo checkout -q -- . && git -C $E/repo clean -fdq src
 echo "$ID:$RES"
 echo "$ID:$RES" >> $E/out/summary.txt
